@@ -63,11 +63,11 @@ fn main() {
             let sh = shard::parse_shard(&args);
             let only = arg(&args, "--only").or_else(|| if comp == "c06" { Some("batch-parked".to_string()) } else { None });
             if sh.is_some() || replay.is_some() || std::env::var("VERIF_NOSHARD").is_ok() {
-                c05::run(&tier, seed, replay.as_deref(), sh, only.as_deref(), &drv)
+                c05::run(&tier, seed, replay.as_deref(), sh, only.as_deref(), &drv, &format!("{corpus}/C05"))
             } else {
                 let mut rep = report::Report::new(&comp, c05::rule());
                 let n = par::threads().min(8);
-                let mut pass: Vec<String> = vec!["--tier".into(), tier.clone(), "--seed".into(), seed.to_string(), "--drv".into(), drv.clone()];
+                let mut pass: Vec<String> = vec!["--tier".into(), tier.clone(), "--seed".into(), seed.to_string(), "--drv".into(), drv.clone(), "--corpus".into(), corpus.clone()];
                 if let Some(o) = &only {
                     pass.push("--only".into());
                     pass.push(o.clone());
